@@ -15,12 +15,16 @@
      each element holding exactly the tuple the other one held and touches nothing outside the
      two extents (C11_reference_swap_exchanges_the_values; SwapThm.v: besides coverage this
      needs the runs of the table to be pairwise disjoint, C11_runs_do_not_overlap);
-   PARTIAL: the move form, assignment and swap within one vector, and the permuting algorithms
+   * `target = std::move(source)` between references in different vectors leaves the target
+     holding the source's tuple; the source keeps its bytes except in the fields the move table
+     assigns object by object, which hold moved-from objects
+     (C11_reference_move_assignment_moves_the_values; MoveThm.v);
+   PARTIAL: assignment and swap within one vector, and the permuting algorithms
    (which are compositions of these) are modelled as written and decided by the correspondence
    check and its content oracle (DESIGN.md, C11); in the model all access paths are the same
    function. *)
 From Coq Require Import ZArith List Bool Lia.
-From Cntgs Require Import Base Layout Mem Vector Proxy World Spec Rep CompareThm RunsThm ElemThm CmpContent AssignThm SwapThm.
+From Cntgs Require Import Base Layout Mem Vector Proxy World Spec Rep CompareThm RunsThm ElemThm CmpContent AssignThm SwapThm MoveThm.
 Import ListNotations.
 Local Open Scope Z_scope.
 
@@ -105,3 +109,18 @@ Theorem C11_runs_do_not_overlap : forall pred bpad bspan L,
   separated (runs pred bpad bspan L) (length L).
 Proof. exact runs_separated. Qed.
 Print Assumptions C11_runs_do_not_overlap.
+
+(* move form: the target gets the source's tuple; the source is scribbled (moved-from objects,
+   0xEE in the model) exactly on the byte ranges of the fields that are not trivially
+   move-assignable (MANUAL in the move table) and keeps every other byte *)
+Theorem C11_reference_move_assignment_moves_the_values : forall L, wf_plist L = true ->
+  forall tx ty fcx fcy, tuple_ok L fcx 0 tx -> tuple_ok L fcy 0 ty -> cnts_of ty = cnts_of tx ->
+  forall mx my xa ya, 0 <= xa /\ (SA L | xa) -> 0 <= ya /\ (SA L | ya) -> elem_at L mx xa tx ->
+  forall sb db,
+  let x' := fst (assign_all true L sb db (ref_fl L tx xa) (ref_fl L ty ya)
+                            {| m_s := mx; m_d := my; m_same := false |} (seq 0 (length L))) in
+  elem_at L (m_d x') ya tx /\
+  (forall y, ~ (ya <= y < ya + (elem_end L xa tx - xa)) -> m_d x' y = my y) /\
+  (forall y, m_s x' y = if existsb (fun k => man L k && MoveThm.rx L tx xa k y) (seq 0 (length L)) then 238 else mx y).
+Proof. exact ref_move_assign. Qed.
+Print Assumptions C11_reference_move_assignment_moves_the_values.
